@@ -360,6 +360,20 @@ func c02Discover(mac net.HardwareAddr, mt byte, requested net.IP) []byte {
 	return append(b, 255)
 }
 
+// the stage-A harness re-states what internal/ipoe does around the provider call; whether ipoe answers an
+// unresolved DISCOVER/REQUEST is read off the ipoe sources of the tree under test
+var c02Guard = -1
+
+func c02IpoeGuardsUnresolved() bool {
+	if c02Guard < 0 {
+		c02Guard = 0
+		if b, err := os.ReadFile("../ipoe/resolve.go"); err == nil && strings.Contains(string(b), "func (c *Component) handleResolvedV4(") {
+			c02Guard = 1
+		}
+	}
+	return c02Guard == 1
+}
+
 func c02Handle(p *dhcp4local.Provider, pkt *dhcp4.Packet) (resp *dhcp4.Packet, err error, panicked bool) {
 	defer func() {
 		if r := recover(); r != nil {
@@ -484,10 +498,14 @@ func (w *c02World) op(f []string) string {
 				resolved = dhcp.ResolveV4(s.ctx, prof)
 			}
 		}
-		// as the component does, the packet goes to the provider even when resolution failed (Resolved = nil)
+		// as the component does: before the unresolved-guard fix the packet went to the provider even when
+		// resolution failed (Resolved = nil); with the fix (ipoe.handleResolvedV4 present) it is not answered
 		mt := byte(1)
 		if f[0] == "IQ" {
 			mt = 3
+		}
+		if resolved == nil && c02IpoeGuardsUnresolved() {
+			return strings.ToLower(f[0]) + " nil ctx4=" + c02Num(s.ctx.IPv4Address)
 		}
 		resp, err, panicked := c02Handle(w.prov, &dhcp4.Packet{SessionID: s.id, MAC: s.mac.String(),
 			SVLAN: uint16(100 + s.grp), Raw: c02Discover(s.mac, mt, s.told4), Resolved: resolved})
